@@ -1203,7 +1203,8 @@ impl Gen<'_> {
             }
 
             // --- handles
-            "handle_overlong" | "handle_illegal" | "handle_empty" => {
+            "handle_overlong" | "handle_illegal" | "handle_empty"
+            | "handle_uri_unsafe" => {
                 let sel = select(&val, |p, n| {
                     n.is_string() && matches!(
                         p.last(), Some(Seg::Key(k))
@@ -1215,6 +1216,12 @@ impl Gen<'_> {
                     "handle_overlong" => rng.pick(&["a", "ab/", "-"])
                         .repeat(rng.pick(&[255usize, 256, 257, 1000, 70000])),
                     "handle_empty" => String::new(),
+                    // legal in a handle (RFC 8183), not in a URI or a
+                    // file name
+                    "handle_uri_unsafe" => rng.pick(&[
+                        "a\\b", "\\", "a\\", "\\b", "a/b", "a/",
+                        "a\\/b", "a\\\\b", "x\\..\\y",
+                    ]).to_string(),
                     _ => rng.pick(&[
                         "a b", "a.b", "ä", "a\u{0}b", "../x", "a%2fb", "a/b",
                         "a\\b", "/", "..", "../../x", "a/../b", "ta", "\\",
@@ -1354,6 +1361,23 @@ const ROUTES: &[(&str, &str)] = &[
     ("GET", "/api/v1/ta/proxy/children/{child}/parent_response.json"),
     ("GET", "/api/v1/ta/proxy/signer/request"),
     ("GET", "/api/v1/authorized"),
+    ("POST", "/api/v1/ta/proxy/signer/add"),
+    ("POST", "/api/v1/ta/proxy/signer/update"),
+    ("POST", "/api/v1/ta/proxy/signer/response"),
+    ("POST", "/api/v1/ta/proxy/signer/request"),
+    ("POST", "/api/v1/ta/proxy/children"),
+    ("POST", "/api/v1/ta/proxy/repo"),
+    ("POST", "/api/v1/cas/{ca}/sync/parents"),
+    ("POST", "/api/v1/cas/{ca}/sync/repo"),
+    ("POST", "/api/v1/cas/{ca}/children/{child}"),
+    ("POST", "/api/v1/cas/{ca}/parents/{parent}"),
+    ("POST", "/api/v1/bulk/cas/sync/parent"),
+    ("POST", "/api/v1/bulk/cas/sync/repo"),
+    ("POST", "/api/v1/bulk/cas/publish"),
+    ("POST", "/api/v1/pubd/session_reset"),
+    ("POST", "/auth/login"),
+    ("POST", "/testbed/children"),
+    ("POST", "/testbed/publishers"),
     ("POST", "/rfc8181/{pub}"),
     ("POST", "/rfc6492/{ca}"),
     ("GET", "/rrdp/notification.xml"),
@@ -1429,6 +1453,20 @@ impl Gen<'_> {
                 segs[idx] = rng.pick(&["a", "%41", "-_", "1"]).repeat(
                     rng.pick(&[256usize, 257, 4096, 30_000])
                 );
+            }
+            "seg_uri_unsafe" => {
+                // characters a handle may have but a URI may not, in
+                // the place of a handle if the route has one
+                let handles: Vec<usize> = holes.iter().filter(|h| {
+                    matches!(h.1.as_str(), "ca" | "child" | "pub" | "parent")
+                }).map(|h| h.0).collect();
+                let at = if handles.is_empty() { idx } else {
+                    rng.pick(&handles)
+                };
+                segs[at] = rng.pick(&[
+                    "a%5cb", "%5c", "a%5c", "%5cb", "a%5c%5cb", "a%5c%2fb",
+                    "a%2fb",
+                ]).to_string();
             }
             "seg_illegal_chars" => {
                 segs[idx] = rng.pick(&[
@@ -1705,6 +1743,9 @@ impl Gen<'_> {
                 "/", "..",
             ]).to_string(),
             "handle_empty" => String::new(),
+            "handle_uri_unsafe" => rng.pick(&[
+                "a\\b", "\\", "a/b", "a\\/b",
+            ]).to_string(),
             "cert_truncated" => {
                 let der = B64.decode(seed.as_bytes()).unwrap_or_default();
                 B64.encode(&der[..rng.below(der.len().max(1))])
